@@ -22,6 +22,7 @@ ASSUMPTIONS = [
     "layout of banks 0/1 from IEC 62386-102 Table 9 / 9.10.7 and DiiA 251; banks 202-207 recalled from DiiA 252/253 and reviewed against the tree (flag columns pinned)",
     "inverse direction is demanded only for plain numbers and strings (statement); TemperatureValue/FixedScaleNumericValue.value_to_raw not applying the inverse offset/scale is recorded as an observation",
 ]
+CHAIN_STRIDE = {'quick': 8, 'thorough': 20}      # every k-th shard is re-run in chains inside one process (non-initial process states)
 BOUNDS = {"quick": "widths 1-2 exhaustive; wider: 8^4 outer-byte product x 3 middles + boundaries", "thorough": "widths 1-3 exhaustive (2^24 raws for each 3-byte value); 12^4 outer-byte product x 5 middles for wider ones, strings with two special bytes"}
 
 
